@@ -2,3 +2,11 @@ claim("C16",
  "For every input of up to N bytes over all 256 byte values (step lemma: N<=4 quick / 6 thorough, from position 0 with arbitrary prior lexer flags; whole-stream: N<=2 / 3), both lexer modes, the solver shows on every execution path of the real lexer that tokens tile the input: progress, literal==span for identifiers/numbers/operators, string and comment spans and the escape table against an independent decoder, interning (same pointer), keywords never IDENT, end marker within n+1 tokens and repeating. Bounded model checking, not a proof: longer inputs are outside the claim.",
  "Harness builds Lexer values directly (in-package overlay).",
  "DESIGN.md §4 C16")
+claim("C20",
+ "For every set of up to 3 inserted words (4 thorough) of length 0..2 (3) over the alphabets {a,b} and {a,0x00,0xff}, in every insertion order, and every query of length 0..3, the solver explores all executions of the real trie.Insert/Contains/PrefixAll and of the repl completion callback and shows: membership iff inserted non-empty, prefix results = the inserted words with that prefix, once each, in byte order, reported length = their longest common prefix, completion result extends the typed text to a prefix of a defined word without slicing out of range.",
+ "Bytes are symbolic under an alphabet assumption (children[char] forks once per feasible byte). Reference set semantics written in the harness.",
+ "DESIGN.md §4 C20")
+claim("C17",
+ "For every file name of length 0..6 (8 thorough) over all 256 byte values the solver shows on every path of the real sanitizeFileName that an accepted name is [A-Za-z0-9_]*.gr (only .gr in empty-only mode) and that acceptance depends on the name only; for names of 0..5 (6) bytes and the no-argument form, save() and load() run against a file-system model create/read only such files, leave planted foreign files (../secret.gr, sub/x.gr, notes.txt) untouched, and a rejected request changes nothing; for all 16 configurations exec/run/load/save are registered exactly when allowed. Counterexamples are replayed natively inside a chroot scratch tree.",
+ "Relative to the file-system model (DESIGN §2.7); image.save's constant grol.png and callbacks built on unencoded libraries are outside the claim.",
+ "DESIGN.md §4 C17")
